@@ -187,3 +187,22 @@ func (verifClock) After(d time.Duration) <-chan time.Time {
 }
 func (verifClock) Since(t time.Time) time.Duration { return verifClock{}.Now().Sub(t) }
 func (verifClock) Until(t time.Time) time.Duration { return t.Sub(verifClock{}.Now()) }
+
+// verifSyncClock: synchronous simulated clock for single-threaded harnesses; a wait advances
+// the harness clock by the requested duration and returns at once.
+type verifSyncClock struct{}
+
+func (verifSyncClock) Now() time.Time { return time.Unix(0, verifNow()) }
+func (verifSyncClock) Sleep(d time.Duration) {
+	if d > 0 {
+		verifSetNow(verifNow() + int64(d))
+	}
+}
+func (verifSyncClock) After(d time.Duration) <-chan time.Time {
+	verifSyncClock{}.Sleep(d)
+	ch := make(chan time.Time, 1)
+	ch <- time.Unix(0, verifNow())
+	return ch
+}
+func (verifSyncClock) Since(t time.Time) time.Duration { return verifSyncClock{}.Now().Sub(t) }
+func (verifSyncClock) Until(t time.Time) time.Duration { return t.Sub(verifSyncClock{}.Now()) }
